@@ -44,6 +44,10 @@ TRUSTED_BASE = [
     'line-atomic interleavings only: a thread switch happens between two source statements of the modelled methods, never inside one '
     '(no bytecode-level preemption); database statements (_init SELECT, INSERT) are single steps',
     'garbage collection = immediate CPython reference counting; weak reference callbacks are not used by the code; OS scheduling is not exhibited',
+    'the proved theorems (C09_*_partial) cover get (hit / miss / missing row / first use), create, expire of a held instance and '
+    'forgetting a result, for any number of threads, programs and schedules, under the guard of Model/CacheConcSpec.v (no cull '
+    'triggered; created() not overlapping a get of the same id between its miss and its put); cull, CacheFactory.expireAll and '
+    'sqlmeta.expireAll are in the model, the correspondence and the oracle but outside the proved operation set',
     'cache=True connections only in the model and theorems (cache=False runs are judged by the oracle only); __setstate__ (unpickling), '
     'destroySelf, sync and _SO_loadValue are outside the operation list',
     'CPython dict iteration over a dict modified without a change of size is not modelled (such runs are counted, not compared)',
@@ -80,7 +84,12 @@ WORLD_OPS = {
 }
 
 
-CULL_QUICK = {('get1', 'get3'), ('get3', 'create'), ('create', 'exp0'), ('get1', 'xall')}
+THOROUGH_B3 = {'get1', 'get3', 'get9', 'getnew', 'create', 'exp0'}
+QUICK_B2 = {   # the pairs explored at bound 2 in the quick tier for these worlds (the others at bound 1; thorough: all at 3)
+    'cull': {('get1', 'get3'), ('get3', 'create'), ('create', 'exp0'), ('get1', 'xall')},
+    'weakdead': {('get1', 'get1'), ('get1', 'get2'), ('get1', 'exp1'), ('get1', 'xall')},
+    'unheld': {('get2', 'get2'), ('get2', 'xall'), ('xall', 'xall'), ('create', 'xall')},
+}
 
 
 def op_of(world, name):
@@ -104,22 +113,27 @@ def configs(tier):
             nheavy = (a in heavy) + (b in heavy)
             if tier == 'quick':
                 bound = 1 if nheavy else 2
-                if w == 'cull' and (a, b) not in CULL_QUICK:
+                if w in QUICK_B2 and (a, b) not in QUICK_B2[w]:
                     bound = 1
             else:
-                bound = 2 if nheavy else 3
+                # thorough: bound 3 for the core operations where most of the code runs, 2 elsewhere
+                core3 = w in ('fresh', 'strong', 'weak') and a in THOROUGH_B3 and b in THOROUGH_B3
+                bound = 3 if core3 else 2
+                if nheavy == 2 and w not in ('strong', 'weak'):
+                    bound = 1
             out.append((base_case(w, [a, b]), bound))
     # three threads, bound 1
     triples = [('fresh', ['get1', 'get1', 'create']), ('fresh', ['get1', 'create', 'getnew']),
                ('strong', ['get3', 'get3', 'exp0']), ('strong', ['get1', 'exp0', 'exp0']),
                ('strong', ['create', 'getnew', 'xall']), ('weak', ['get1', 'get1', 'exp0']),
-               ('weak', ['get1', 'xall', 'create']), ('cull', ['get1', 'get3', 'create']),
-               ('unheld', ['get2', 'xall', 'xall']), ('strong', ['get3', 'create', 'get9'])]
+               ('weak', ['get1', 'xall', 'create']), ('unheld', ['get2', 'xall', 'xall'])]
+    if tier != 'quick':
+        triples += [('cull', ['get1', 'get3', 'create']), ('strong', ['get3', 'create', 'get9'])]
     if tier != 'quick':
         for w, names in WORLD_OPS.items():
-            light = [n for n in names if n not in heavy]
+            light = [n for n in names if n not in heavy and n != 'get9']
             for tr in itertools.combinations_with_replacement(light, 3):
-                if (w, list(tr)) not in triples:
+                if (w, list(tr)) not in triples and len(set(tr)) >= 2:
                     triples.append((w, list(tr)))
     for w, tr in triples:
         out.append((base_case(w, tr), 1))
@@ -226,7 +240,7 @@ def generate(rng, tier):
             c['sched'] = sd
             c['bound'] = j['bound']
             out.append(c)
-    nrand = 1000 if tier == 'quick' else 20000
+    nrand = 1000 if tier == 'quick' else 8000
     out += [random_case(rng, k) for k in range(nrand)]
     # cache=False: judged by the oracle only
     for k in range(60 if tier == 'quick' else 600):
@@ -412,6 +426,38 @@ def oracle(c, o):
     return None
 
 
+def classify_by_shape(c, o, f):
+    """The labels of the model are not available (the skeleton of the tree under test differs): recognise the
+    open findings by the operations involved only, so that the replay shows something else than a known race."""
+    kind = f.get('kind')
+    conc = [p for p in c['progs'][1:]]
+    kinds = lambda t: {x[0] for x in c['progs'][t]}
+    allk = set()
+    for p in conc:
+        allk |= {x[0] for x in p}
+    if kind == 'exception' and f.get('exc') == 'RuntimeError':
+        op = c['progs'][f['thread']][f['op']]
+        others = set()
+        for t, p in enumerate(c['progs']):
+            if t != f['thread'] and t != 0:
+                others |= {x[0] for x in p}
+        if op[0] in ('xall', 'mexall') and 'create' in others:
+            return 'created_vs_expireall_iteration'
+        if op[0] == 'mexall' and others & {'xall', 'mexall', 'get', 'expire', 'create'}:
+            return 'getall_unlocked_iteration'
+    if kind in ('identity', 'unreachable'):
+        row = f.get('row')
+        creates = [(t, k) for t, p in enumerate(c['progs']) for k, x in enumerate(p) if x[0] == 'create'
+                   and o['results'][t][k][0] == 'obj' and o['results'][t][k][2] == row]
+        if creates and allk & {'xall', 'mexall'}:
+            return 'created_lost_in_expireall'
+        gets = [(t, k) for t, p in enumerate(c['progs']) for k, x in enumerate(p) if x[0] == 'get' and x[1] == row
+                and t not in [u for u, _ in creates]]
+        if creates and gets:
+            return 'created_overwrites_get_miss'
+    return None
+
+
 MISS_REGION = {'F111', 'F112', 'F116', 'F117', 'F118', 'F119', 'F121', 'F122', 'F123', 'F124', 'M951', 'M954', 'SP311', 'P152', 'P153'}
 
 
@@ -422,7 +468,7 @@ def classify(c, o, f):
     tl = timeline(o)
     kind = f.get('kind')
     if o.get('skeleton'):
-        return None
+        return classify_by_shape(c, o, f)
     pcnow = {}
     # replay the time line, looking for the overlaps
     created_in_iter = created_after_loop = False
